@@ -442,7 +442,7 @@ Section Spec.
     Hypothesis H_put : forall i shuf t k v, i < L -> Inv i t -> perm_oracle shuf ->
         exists t', put K V eqb hash maxlf shuf t k v = Ok t' /\ Inv (S i) t' /\ forall k', Fun t' k' = fupd (Fun t) k v k'.
     Hypothesis H_get : forall i t k, Inv i t -> get K V eqb hash t k = Ok (Fun t k).
-    Hypothesis H_delete : forall i shuf t k, Inv i t -> perm_oracle shuf ->
+    Hypothesis H_delete : forall i shuf t k, i < L -> Inv i t -> perm_oracle shuf ->
         exists t', delete K V eqb hash minlf maxlf shuf t k = Ok (t', Fun t k) /\ Inv i t' /\
                    forall k', Fun t' k' = frem (Fun t) k k'.
     Hypothesis H_delete_all : forall i t, Inv i t -> Inv i (delete_all K V t) /\ forall k, Fun (delete_all K V t) k = None.
@@ -501,7 +501,7 @@ Section Spec.
         simpl. now rewrite E.
       - (* Delete *)
         pose proof (RelI_sel _ x _ _ R) as (I & ND & E).
-        destruct (H_delete i (orc 0) (sel x t) k I (PO 0)) as (t' & Hp & I' & F').
+        destruct (H_delete i (orc 0) (sel x t) k Hi I (PO 0)) as (t' & Hp & I' & F').
         rewrite Hp; simpl. do 2 eexists; split; [reflexivity|]. split; [|simpl; now rewrite E].
         apply RelI_setx; auto. split; [auto|]. split; [now apply NoDup_keys_s_rem|].
         intros k'. rewrite F', s_get_s_rem. unfold frem. now rewrite E.
